@@ -50,6 +50,9 @@ func (c *flagNameChecker) VisitExpr(expr ast.Expr) {
 		c.checkFlagName(call, call.Args[0])
 	case "BoolVar", "DurationVar", "Float64Var", "StringVar",
 		"IntVar", "Int64Var", "UintVar", "Uint64Var":
+		if len(call.Args) < 2 {
+			return // flag.XVar(f()) with f returning all 4 arguments
+		}
 		c.checkFlagName(call, call.Args[1])
 	}
 }
